@@ -417,6 +417,8 @@ type sAdv struct {
 	lo, up int    // ranks of the range ends (-1: no range)
 	cpeOK  bool
 	cpeStr string
+	wfn    cpe.WFN
+	rhel   bool
 	sup    []bool
 }
 
@@ -748,6 +750,58 @@ type scanScenario struct {
 	nrepos     int
 	repoSet    []*sRepo
 	badVersion bool
+	parts      []*scanScenario // a report put together from scenarios of several ecosystems
+}
+
+// mergeScan puts two scenarios of different ecosystems into one IndexReport
+// and one store (a python package in a Debian image, an rpm next to a gem).
+func mergeScan(a, b *scanScenario) *scanScenario {
+	m := &scanScenario{set: a.set, rhelIU: a.rhelIU, parts: []*scanScenario{a, b}}
+	off := len(a.repoSet)
+	for _, x := range b.repoSet {
+		x.idx += off
+	}
+	m.repoSet = append(append([]*sRepo{}, a.repoSet...), b.repoSet...)
+	m.recs = append(append([]*sRec{}, a.recs...), b.recs...)
+	m.advs = append(append([]*sAdv{}, a.advs...), b.advs...)
+	ir := &claircore.IndexReport{Packages: map[string]*claircore.Package{}, Distributions: map[string]*claircore.Distribution{},
+		Repositories: map[string]*claircore.Repository{}, Environments: map[string][]*claircore.Environment{}}
+	for _, p := range m.parts {
+		for k, v := range p.ir.Packages {
+			ir.Packages[k] = v
+		}
+		for k, v := range p.ir.Distributions {
+			ir.Distributions[k] = v
+		}
+		for k, v := range p.ir.Environments {
+			ir.Environments[k] = v
+		}
+	}
+	// repository keys follow the merged numbering
+	for _, p := range m.parts {
+		for pid, envs := range p.ir.Environments {
+			_ = pid
+			for _, en := range envs {
+				for i, rid := range en.RepositoryIDs {
+					rp := p.ir.Repositories[rid]
+					nid := rid + "m"
+					ir.Repositories[nid] = rp
+					en.RepositoryIDs[i] = nid
+				}
+			}
+		}
+	}
+	for _, ad := range m.advs {
+		if !ad.rhel {
+			continue
+		}
+		ad.sup = nil
+		for _, x := range m.repoSet {
+			ad.sup = append(ad.sup, ad.cpeOK && cpe.Compare(ad.wfn, x.cpe).IsSuperset())
+		}
+	}
+	m.ir = ir
+	return m
 }
 
 // scanVersions: n spellings with ranks in the ecosystem's scheme.
@@ -933,7 +987,15 @@ func (sc *scanScenario) whyUnlisted(pid string, a *sAdv) string {
 var scanPkgNames = []string{"openssl", "zlib", "libxml2", "requests", "rack", "log4j-core", "golang.org/x/net", "lodash", "a'b", "pkg"}
 
 // genScan builds one scenario for the ecosystem.
-func (e *env) genScan(eco scanEco) *scanScenario {
+// scanOpt places a scenario inside a larger report: ID offset, a tag that
+// keeps its names and map keys apart, and the matcher set it has to run under.
+type scanOpt struct {
+	base     int
+	tag      string
+	forceSet string
+}
+
+func (e *env) genScan(eco scanEco, opt scanOpt) *scanScenario {
 	rnd := e.rnd
 	sc := &scanScenario{eco: eco, oracle: true}
 	sc.set = "D0"
@@ -946,15 +1008,18 @@ func (e *env) genScan(eco scanEco) *scanScenario {
 	if eco.id == "nodejs" {
 		sc.set, sc.rhelIU = "M:nodejs", false // not among the registered defaults
 	}
+	if opt.forceSet != "" {
+		sc.set, sc.rhelIU = opt.forceSet, opt.forceSet == "D1"
+	}
 	chain := e.scanVersions(eco, 4+rnd.Intn(3))
 	nchain := e.nvChain(4)
 	release := rnd.Pick("8", "9", "12", "3.18", "22.04", "2")
 	npk := 1 + rnd.Intn(2)
 	ir := &claircore.IndexReport{Packages: map[string]*claircore.Package{}, Distributions: map[string]*claircore.Distribution{},
 		Repositories: map[string]*claircore.Repository{}, Environments: map[string][]*claircore.Environment{}}
-	name := scanPkgNames[rnd.Intn(len(scanPkgNames))]
+	name := scanPkgNames[rnd.Intn(len(scanPkgNames))] + opt.tag
 	for pi := 0; pi < npk; pi++ {
-		pid := itoa(pi + 1)
+		pid := itoa(opt.base + pi + 1)
 		ce := chain[rnd.Intn(len(chain))]
 		ne := nchain[rnd.Intn(len(nchain))]
 		pa, _, _ := e.scanArch()
@@ -997,7 +1062,7 @@ func (e *env) genScan(eco scanEco) *scanScenario {
 			}
 			envr := &claircore.Environment{}
 			if d != nil {
-				did := "d" + itoa(len(ir.Distributions)+1)
+				did := "d" + opt.tag + itoa(len(ir.Distributions)+1)
 				ir.Distributions[did] = d.real()
 				envr.DistributionID = did
 			}
@@ -1013,7 +1078,7 @@ func (e *env) genScan(eco scanEco) *scanScenario {
 			for _, x := range repos {
 				x.idx = len(sc.repoSet)
 				sc.repoSet = append(sc.repoSet, x)
-				rid := "r" + itoa(x.idx+1)
+				rid := "r" + opt.tag + itoa(x.idx+1)
 				ir.Repositories[rid] = x.real()
 				envr.RepositoryIDs = append(envr.RepositoryIDs, rid)
 			}
@@ -1059,7 +1124,7 @@ func (e *env) genScan(eco scanEco) *scanScenario {
 				v.Package.Kind = claircore.BINARY
 			}
 		}
-		a := &sAdv{id: itoa(ai + 1), v: v, frank: -1, irank: -1, lo: -1, up: -1}
+		a := &sAdv{id: itoa(opt.base + ai + 1), v: v, frank: -1, irank: -1, lo: -1, up: -1}
 		if eco.id == "rhel" {
 			v.Repo.Name = rhelAdvisoryCPEs[rnd.Intn(len(rhelAdvisoryCPEs))]
 			v.Repo.Key = rhelRepositoryKey
@@ -1082,8 +1147,9 @@ func (e *env) genScan(eco scanEco) *scanScenario {
 			}
 		}
 		if eco.id == "rhel" {
+			a.rhel = true
 			if w, err := cpe.Unbind(v.Repo.Name); err == nil {
-				a.cpeOK, a.cpeStr = true, w.String()
+				a.cpeOK, a.cpeStr, a.wfn = true, w.String(), w
 				for _, x := range sc.repoSet {
 					a.sup = append(a.sup, cpe.Compare(w, x.cpe).IsSuperset())
 				}
@@ -1282,10 +1348,20 @@ func (e *env) scanOps(rounds int) {
 			if r.Stop() {
 				return
 			}
-			sc := e.genScan(eco)
+			sc := e.genScan(eco, scanOpt{})
 			if sc == nil {
 				r.Count("scan:skipped-hang-shape")
 				continue
+			}
+			if eco.id != "nodejs" && rnd.Chance(1, 3) {
+				// packages of a second ecosystem in the same image
+				other := scanEcos[rnd.Intn(len(scanEcos))]
+				if other.id != eco.id && other.id != "nodejs" {
+					if sb := e.genScan(other, scanOpt{base: 10, tag: "-b", forceSet: sc.set}); sb != nil {
+						sc = mergeScan(sc, sb)
+						r.Count("scan:mixed:" + eco.id + "+" + other.id)
+					}
+				}
 			}
 			var ms []driver.Matcher
 			switch sc.set {
@@ -1304,35 +1380,47 @@ func (e *env) scanOps(rounds int) {
 			got, counts := runScan(ms, sc)
 			r.Op(sc.line(), got, true)
 			r.Count("scan:" + eco.id + ":" + sc.set + ":" + got[:1])
+			parts := sc.parts
+			if parts == nil {
+				parts = []*scanScenario{sc}
+			}
 			if strings.HasPrefix(got, "harness-error") || got == "hang" {
 				r.Fail("", "scan: "+got+": "+sc.describe())
 				continue
 			}
 			// the statement, pair by pair
-			pids := map[string]bool{}
-			for _, rec := range sc.recs {
-				pids[rec.pkg.ID] = true
-			}
 			errExpected := strings.HasPrefix(got, "E")
-			for pid := range pids {
-				for _, a := range sc.advs {
-					want, known := sc.expected(pid, a)
-					n := counts[hexs(pid)+":"+hexs(a.id)]
-					if !known || errExpected {
-						r.Count("scan:" + eco.id + ":pair:model-only")
-						continue
-					}
-					r.Count(fmt.Sprintf("scan:%s:pair:listed=%d", eco.id, n))
-					if n == 0 {
-						r.Count("scan:unlisted:" + sc.whyUnlisted(pid, a))
-					}
-					if n != want {
-						r.Fail("", fmt.Sprintf("scan/%s: advisory #%s is listed %d times for package #%s, by construction expected %d (once per record of the package in a release / repository the advisory is about, whose version is affected): %s",
-							eco.id, a.id, n, pid, want, sc.describe()))
+			for _, part := range parts {
+				pids := map[string]bool{}
+				for _, rec := range part.recs {
+					pids[rec.pkg.ID] = true
+				}
+				for pid := range pids {
+					for _, a := range sc.advs {
+						own := false
+						for _, x := range part.advs {
+							own = own || x == a
+						}
+						want, known := 0, true // an advisory about the other ecosystem's packages
+						if own {
+							want, known = part.expected(pid, a)
+						}
+						n := counts[hexs(pid)+":"+hexs(a.id)]
+						if !known || errExpected {
+							r.Count("scan:" + part.eco.id + ":pair:model-only")
+							continue
+						}
+						r.Count(fmt.Sprintf("scan:%s:pair:listed=%d", part.eco.id, n))
+						if n == 0 && own {
+							r.Count("scan:unlisted:" + part.whyUnlisted(pid, a))
+						}
+						if n != want {
+							r.Fail("", fmt.Sprintf("scan/%s: advisory #%s is listed %d times for package #%s, by construction expected %d (once per record of the package in a release / repository the advisory is about, whose version is affected): %s",
+								part.eco.id, a.id, n, pid, want, sc.describe()))
+						}
 					}
 				}
 			}
-			_ = rnd
 		}
 	}
 }
